@@ -7,6 +7,7 @@ package main
 
 import (
 	"bytes"
+	"crypto/sha512"
 	"errors"
 	"fmt"
 	"math/big"
@@ -222,6 +223,46 @@ func honest(r *mon.Run, c Case) {
 			expectVerify(r, c, "torsion-shifted-gamma", v10, pk, pim, alpha, true, beta)
 			proofToHash(r, c, pim)
 			break
+		}
+	}
+	// nonces chosen by the prover (who knows x): k = 0 makes the recomputed commitments U = V = O, k = 1, L-1, the
+	// cofactor and a small value make them the simplest non-trivial points. RFC 9381 ECVRF_verify has no opinion on U
+	// and V beyond the challenge comparison: these proofs are VALID, with the honest output.
+	for _, kv := range []*big.Int{big.NewInt(0), big.NewInt(1), new(big.Int).Sub(ref.L, big.NewInt(1)), big.NewInt(8), big.NewInt(2)} {
+		pik, _ := ref.VRFProve(seed, alpha, v10, kv, nil)
+		if rok, rb := ref.VRFVerify(pk, pik, alpha, v10); !rok || !bytes.Equal(rb, beta) {
+			mon.Fatalf("ORACLE: reference does not accept the chosen-nonce proof it built (k=%v)", kv)
+		}
+		expectVerify(r, c, "chosen-nonce", v10, pk, pik, alpha, true, beta)
+		proofToHash(r, c, pik)
+	}
+	// one key buffer used for two keys in turn, the same alpha: each proof is the proof for the key the buffer holds
+	// at the time of the call
+	{
+		seed2 := sha512.Sum512_256(seed)
+		sk2 := ed25519.NewKeyFromSeed(seed2[:])
+		kb := make([]byte, 64, 96)
+		for round, key := range []ed25519.PrivateKey{sk, sk2, sk} {
+			copy(kb, key)
+			sd := key.Seed()
+			var got []byte
+			pan, msg := mon.Try(func() {
+				if v10 {
+					got = ecvrf.Prove_v10(ed25519.PrivateKey(kb), alpha)
+				} else {
+					got = ecvrf.Prove(ed25519.PrivateKey(kb), alpha)
+				}
+			})
+			wantPi, _ := ref.VRFProve(sd, alpha, v10, nil, nil)
+			r.Eval(nil)
+			r.Hist("reused-key-buffer/prove")
+			if pan || !bytes.Equal(got, wantPi) {
+				r.Violate("ecvrf/Prove/reused-key-buffer", fmt.Sprintf("round %d: panic=%v %s got %x want %x", round, pan, msg, got, wantPi), c)
+				continue
+			}
+			wb, _ := ref.VRFProofToHash(wantPi)
+			pkb := kb[32:64]
+			expectVerify(r, c, "reused-key-buffer", v10, pkb, wantPi, alpha, true, wb)
 		}
 	}
 	r.Sample(fmt.Sprintf("honest-v10=%v", v10), map[string]any{"case": c, "pi": mon.Hex(pi), "beta": mon.Hex(beta)})
